@@ -25,7 +25,7 @@ go test -mod=mod -vet=off -count=1 -tags verif -run "^${DEMONAME}\$" . 2>&1 | ta
 rm -f $WT/zz_seed_demo_test.go
 for c in $CHECKS; do
   echo "== check $c quick against the change"
-  (cd /verif && VERIF_ROOT=/verif VERIF_WORK=/verif/work/alt VERIF_REPO=$WT ${CHECKBIN:-bin/check} $c quick > /tmp/scratch/seed_$c.log 2>&1; echo "exit=$?"; grep -c '^VIOLATION' /tmp/scratch/seed_$c.log; grep -A3 'failure (shard' /tmp/scratch/seed_$c.log | cut -c1-500 | head -8; tail -1 /tmp/scratch/seed_$c.log | cut -c1-200)
+  (cd ${SNAP:-/verif} && VERIF_ROOT=${SNAP:-/verif} VERIF_WORK=${SNAP:-/verif}/work/alt VERIF_REPO=$WT ${CHECKBIN:-bin/check} $c quick > /tmp/scratch/seed_$c.log 2>&1; echo "exit=$?"; grep -c '^VIOLATION' /tmp/scratch/seed_$c.log; grep -A3 'failure (shard' /tmp/scratch/seed_$c.log | cut -c1-500 | head -8; tail -1 /tmp/scratch/seed_$c.log | cut -c1-200)
 done
 cd $WT && git checkout -q -- . && git clean -fdq
-rm -rf /verif/replays/found
+rm -rf ${SNAP:-/verif}/replays/found
